@@ -1,0 +1,14 @@
+// +build verif
+
+package websocket
+
+import "github.com/brewlin/net-protocol/protocol/application/http"
+
+// VerifNewConn wraps a connection as the server does after the upgrade.
+func VerifNewConn(con *http.Connection) *Conn { return newConn(con) }
+
+// VerifComputeAcceptKey exposes the accept-key function.
+func VerifComputeAcceptKey(k string) string { return computeAcceptKey(k) }
+
+// VerifMaskBytes exposes the masking function.
+func VerifMaskBytes(key [4]byte, b []byte) { maskBytes(key, b) }
